@@ -67,7 +67,7 @@ def gen_query(rng):
 
 def generate(rng, tier):
     pool = []
-    for i in range(rng.randint(1, 10)):
+    for i in range(rng.randint(1, 16 if tier == "thorough" else 10)):
         pool.append({"id": f"a{i}", "comps": sorted(rng.sample(range(4), rng.randint(0, 4))), "tag": rng.choice([0, 1, 2, 3, 4])})
     ops = []
     for _ in range(rng.randint(0, 5)):
